@@ -115,6 +115,26 @@ META = {
     "C18-list-append-returns-null-on-oom": ("C18", "p_list_append returns NULL instead of the list when the node allocation fails; needs an allocation failure in an append onto a non-empty list"),
     "C19-shm-open-retry-on-cached-errno": ("C19", "the second shm_open retry loop tests a cached errno that is always EEXIST there; needs EINTR on the plain open of an existing segment"),
     "C20-socket-new-treats-fd-zero-as-failure": ("C20", "p_socket_new treats descriptor 0 as a failed socket(): the socket is neither stored nor closed; needs fd 0 to be free"),
+    # ---- round 6 ----
+    "C01-c11-lock-cas-release-order": ("C01", "C11 spinlock lock: the compare-exchange success order is RELEASE instead of ACQUIRE; needs a weakly ordered CPU (or a happens-before race detector)"),
+    "C02-general-writer-count-mask-one-bit": ("C02", "general rwlock model: the writer-count getter masks one bit, the waiting-writer count is read modulo 2; needs two writers blocked at once"),
+    "C03-wait-private-lock-broadcast-unserialised": ("C03", "wait sleeps on a private mutex of the condition after dropping the user mutex, signal takes it, broadcast does not; needs a broadcast between the unlock and the enqueueing"),
+    "C04-c11-dec-and-test-nonpositive": ("C04", "c11 dec_and_test tests `sub_fetch > 0 ? FALSE : TRUE`; needs a word that is already zero or negative"),
+    "C05-creation-spinlock-taken-after-native-create": ("C05", "the creation spinlock is taken after the native create; needs the new thread to start before the creator has filled in the handle"),
+    "C06-created-flag-or-instead-of-and": ("C06", "sem_created set when mode == CREATE || handle valid; needs creator, a visitor opened and freed, then a third opener"),
+    "C07-sysv-rmid-on-every-free": ("C07", "System V model: IPC_RMID on every free; needs one handle freed while another stays open, then a new opener"),
+    "C08-buffer-new-clears-on-every-open": ("C08", "p_shm_buffer_new clears the segment; needs a second handle opened on a non-empty buffer"),
+    "C09-receive-from-wouldblock-retry-dropped": ("C09", "blocking receive_from no longer retries on would-block; needs the datagram to disappear between poll and recvfrom (two receivers, bad checksum)"),
+    "C10-io-condition-wait-closed-check-dropped": ("C10", "p_socket_io_condition_wait lost its closed check; needs a direct call on a closed socket with the error code or the time checked"),
+    "C11-md5-reset-keeps-len-high": ("C11", "MD5 reset no longer clears len_high; needs 2^32 bytes hashed, a reset, then any message on the same object"),
+    "C12-foreach-thread-counter-8bit": ("C12", "foreach counts pending thread links in a pint8; needs an unbalanced BST with a left spine of more than 256 links and an early stop"),
+    "C14-rb-replace-keeps-destroyed-key": ("C14", "RB replace no longer stores the new key: the destroyed old key stays in the node; needs equal keys that are different objects and a key notifier"),
+    "C15-chain-search-compares-low-word": ("C15", "the chain search compares P_POINTER_TO_INT of the keys; needs two keys that differ only above bit 31"),
+    "C16-bom-check-signed-char": ("C16", "the BOM bytes are compared as plain char; needs a file with a BOM in front of the first header on a signed-char platform"),
+    "C17-from-native-masks-flowinfo": ("C17", "from_native keeps the low 20 bits of sin6_flowinfo; needs an IPv6 address whose flow info has a higher bit set"),
+    "C18-general-rwlock-new-frees-wrong-cv": ("C18", "general rwlock model: the error branch for the write condition frees write_cv (NULL) instead of read_cv; needs the 4th allocation of p_rwlock_new to fail"),
+    "C19-ealready-mapped-to-connected": ("C19", "EALREADY classified CONNECTED in the errno table; needs connect interrupted by a signal with the handshake still pending at the retry"),
+    "C20-map-size-stored-after-create": ("C20", "map_size stored by p_shm_new after the create helper returned; needs p_shm_new to fail in its semaphore step after mmap succeeded"),
     "C20-dir-handle-stored-after-path-copies": ("C20", "p_dir_new stores the DIR handle only after the path copies succeeded; needs the 2nd or 3rd allocation of the call to fail"),
 }
 
